@@ -14,12 +14,29 @@ from . import common, programs
 from .common import harness, outcome, mk_ragged, obs_ragged, obs_any, pyint
 
 SELS = ["rowslice_a", "rowlist", "mask", "colslice_a", "colrev", "colstep2", "rowrev"]
-READS = ["colstep_view", "rowcol_view", "size", "repr", "str", "iter", "ravel", "index_view", "rowint", "ufunc", "rowsum", "tolist", "shape", "nonzero", "elem", "npsum"]
+READS = ["elemarr", "colstep_view", "rowcol_view", "size", "repr", "str", "iter", "ravel", "index_view", "rowint", "ufunc", "rowsum", "tolist", "shape", "nonzero", "elem", "npsum"]
 NON_MATERIALISING = ("index_view", "shape", "colstep_view", "rowcol_view", "size")
 WRITES = ["set_row", "set_col", "set_all"]
 
 
+SHARED = {}
+
+
+def shared_pair(P):
+    """one (row, column) index-array pair per history: the caller's arrays, used by more than one operation"""
+    if "pair" not in SHARED:
+        SHARED["pair"] = (common.arr([P.int("er0", -2, 1)], "int64"), common.arr([P.int("ec0", -2, 1)], "int64"))
+    return SHARED["pair"]
+
+
 def do_read(x, kind, P):
+    if kind == "elemarr":
+        ri, ci = shared_pair(P)
+        try:
+            x[ri, ci]
+        except Exception:
+            pass
+        return
     if kind == "repr":
         repr(x)
     elif kind == "str":
@@ -62,6 +79,7 @@ def do_read(x, kind, P):
 
 
 def history(RaggedArray, lens, data, sk, P, with_read):
+    SHARED.clear()
     a = mk_ragged(RaggedArray, data, lens)
     env = {"a": a}
     rd = sk.get("read")
@@ -84,7 +102,10 @@ def history(RaggedArray, lens, data, sk, P, with_read):
     maybe(3)
     fin = sk.get("final")
     fres = {"k": "none"}
-    if fin and fin["target"] in env:
+    if fin and fin["target"] in env and fin["kind"] == "elemarr":
+        ri, ci = shared_pair(P)
+        fres = outcome(lambda: (env[fin["target"]][ri, ci], ri, ci))          # the same index arrays again, and what they hold now
+    elif fin and fin["target"] in env:
         # the *result* of a later operation must not depend on earlier reads either
         fres = outcome(lambda: programs.probe(env[fin["target"]], fin["kind"], P))
     finals = tuple(obs_ragged(env[k]) for k in ("a", "b", "c") if k in env)
@@ -174,7 +195,15 @@ def jobs(tier, seed):
         for fk in ("colsum", "rowsum", "cumsum", "shape"):
             for rk in ("size", "repr", "rowsum", "colstep_view"):
                 fins.append(dict(sel=sel, read=dict(target="a", kind=rk, pos=0), final=dict(target="b", kind=fk)))
-    corefin = [s_ for s_ in fins if s_["read"]["pos"] == 0 and s_["sel"] in ("rowslice_a", "mask") and s_["final"]["kind"] in ("colsum", "shape") and s_["read"]["kind"] in ("size", "rowsum", "colstep_view")]
+    for sel in ("rowslice_a", "rowrev", "colrev"):
+        for target in ("a", "b"):
+            fins.append(dict(sel=sel, read=dict(target=target, kind="elemarr", pos=1), final=dict(target="b", kind="elemarr")))
+    for sel in ("addone", "rowslice_a", "mask"):
+        for rk in ("rowsum", "npsum", "repr"):
+            for target in ("a", "b"):
+                fins.append(dict(sel=sel, read=dict(target=target, kind=rk, pos=1), final=dict(target="b", kind="fcol")))
+    corefin = [s_ for s_ in fins if s_["final"]["kind"] in ("elemarr", "fcol")]
+    corefin += [s_ for s_ in fins if s_["read"]["pos"] == 0 and s_["sel"] in ("rowslice_a", "mask") and s_["final"]["kind"] in ("colsum", "shape") and s_["read"]["kind"] in ("size", "rowsum", "colstep_view")]
     corefin += [s_ for s_ in fins if s_["read"]["pos"] == 1 and s_["read"]["target"] == "b" and s_["read"]["kind"] in ("repr", "index_view") and (
         (s_["sel"] in ("rowrev", "rowlist") and s_["final"]["kind"] in ("rowsum", "colsum", "any", "rslice"))
         or (s_["sel"] in ("rowslice_a", "rowrev", "colstep2") and s_["final"]["kind"] in ("colint", "rowcolint")))]
